@@ -4188,6 +4188,158 @@ def spec_hidden_element_nothing(ctx, make_exe):
     return {"function": f.name, "paths": len(outs)}
 
 # ----------------------------------------------------------------------------
+# SPEC: an element with an id yields its fragment marker whatever the element converts to (process_dom_node, the code
+# after the dispatch): nothing -> the marker alone; a finished node -> the marker inserted at its start; pending
+# children -> the same children and hooks, and a constructor that puts the marker at the start of whatever the
+# element's own constructor builds, or returns the marker alone when that builds nothing.  Without an id (or name on
+# <a>) the result of the dispatch is returned unchanged.
+# ----------------------------------------------------------------------------
+
+def spec_frag_from_id(ctx, make_exe):
+    import summaries
+    orig = summaries.summarize
+    f = the(ctx.find(r"^process_dom_node$"), "process_dom_node")
+    ctx.enums.setdefault("NodeData", ["Document", "Doctype", "Text", "Comment", "Element", "ProcessingInstruction"])
+    total = 0
+    for name, kind in (("hr", "nothing"), ("br", "finished"), ("em", "pending"), ("div", "pending")):
+        exe = make_exe(loop_bound=6, inline=[r"RenderNode::new_styled$", r"RenderNode::new$"])
+        st = State()
+
+        def atom(v):
+            return VAgg("Atom", None, [VAgg("NonZero", None, [VAgg("Inner", None, [v])])])
+        ns = VInt(u64(HTML_NS_ATOM), 64, False)
+        ln = VInt(u64(_inline_atom(name)), 64, False)
+        node = VAgg("Node", None, [VOpaque("Cell", "parent"), VOpaque("RefCell", "children"),
+                                   VAgg("NodeData::Element", "Element", [VOpaque("QualName", "elname"), VOpaque("RefCell<Vec<Attribute>>", "attrcell"),
+                                                                         VOpaque("RefCell", "tc"), VOpaque("bool", "mx")])])
+        inp = _agg(ctx, "RenderInput", handle=VOpaque("Rc<Node>", "handle"), parent_style=VOpaque("Rc<ComputedStyle>", "parent_style"))
+        attrs = VVec([VOpaque("Attribute", "attr0")])
+        is_id = exe.fresh("bool", "attr_is_id")
+        inner_cons = VOpaque("Box<dyn FnOnce>", "element_cons")
+        kids = VOpaque("Vec<RenderInput>", "element_children")
+        pend = VAgg("TreeMapResult::PendingChildren", "PendingChildren", [kids, inner_cons, VOpaque("Option<prefn>", "element_prefn"), VOpaque("Option<postfn>", "element_postfn")])
+
+        def summ(exe_, st_, f_, bb_, callee, args, dest_ty):
+            c = callee.strip()
+            if re.search(r"^<Rc<Node> as Clone>::clone$", c):
+                return [(st_, VOpaque("Rc<Node>", "handle_clone"))]
+            if re.search(r"^<Rc<Node> as Deref>::deref$", c):
+                return [(st_, VRef("val", node))]
+            if re.search(r"^<Rc<ComputedStyle> as Deref>::deref$", c):
+                return [(st_, VRef("val", VOpaque("ComputedStyle", "parent")))]
+            if re.search(r"StyleData::computed_style$", c):
+                return [(st_, VOpaque("ComputedStyle", "computed"))]
+            if re.search(r"WithSpec::<css::Display>::val$", c):
+                return [(st_, VAgg("Option::None", "None", []))]
+            if re.search(r"RefCell::<Vec<Attribute>>::borrow$", c):
+                return [(st_, VRef("val", attrs))]
+            if re.search(r"^<Ref<'_, Vec<Attribute>> as Deref>::deref$", c) or re.search(r"^<Vec<Attribute> as Deref>::deref$", c):
+                return [(st_, args[0])]
+            if re.search(r"^Option::<Box<ComputedStyle>>::is_some$", c):
+                return [(st_, VBool(z3.BoolVal(False)))]
+            if re.search(r"QualName::expanded$", c):
+                return [(st_, VAgg("ExpandedName", None, [VRef("val", atom(ns)), VRef("val", atom(ln))]))]
+            if re.search(r"Atom<LocalNameStaticSet> as PartialEq<&str>>::eq$", c):
+                return [(st_, is_id)]
+            if re.search(r"^pending(_noempty)?::<", c):
+                return [(st_, pend)]
+            if re.search(r"<Tendril<UTF8> as ToString>::to_string$", c):
+                return [(st_, VOpaque("String", "fragname"))]
+            if re.search(r"^insert_child$", c):
+                st_.calls.append(("inserted", list(args), f_.name, bb_))
+                return [(st_, VOpaque("RenderNode", "with_marker"))]
+            return orig(exe_, st_, f_, bb_, callee, args, dest_ty)
+
+        def is_marker(v):
+            if isinstance(v, VAgg) and v.names and "info" in v.names:
+                inf = v.fields[v.names.index("info")]
+                return isinstance(inf, VAgg) and inf.variant == "FragStart" and getattr(inf.fields[0], "name", None) == "fragname"
+            return False
+
+        def at_start(v):
+            return isinstance(v, VAgg) and v.variant == "Start"
+        summaries.summarize = summ
+        try:
+            try:
+                outs = exe.run(f.name, {1: inp, 2: VOpaque("&mut T", "err_out"), 3: VRef("val", VOpaque("HtmlContext", "context"))}, st)
+                total += len(outs)
+                if len(outs) < 2:
+                    raise Inconclusive("<%s>: expected a path with and one without an id" % name)
+                for (s2, ret) in outs:
+                    if not (isinstance(ret, VAgg) and ret.variant == "Ok"):
+                        raise Inconclusive("<%s>: process_dom_node failed" % name)
+                    tm = ret.fields[0]
+                    has_marker_call = any(cl[0] == "inserted" for cl in s2.calls)
+                    if kind == "nothing":
+                        if isinstance(tm, VAgg) and tm.variant == "Nothing":
+                            post(exe, s2, z3.Not(is_id.e), f.name, "<%s id>: an element that converts to nothing still yields its marker" % name)
+                        else:
+                            ok = isinstance(tm, VAgg) and tm.variant == "Finished" and is_marker(tm.fields[0])
+                            post(exe, s2, z3.BoolVal(bool(ok)), f.name, "<%s id>: the result is the marker alone" % name)
+                            post(exe, s2, is_id.e, f.name, "<%s>: a marker only when there is an id" % name)
+                    elif kind == "finished":
+                        ins = [cl[1] for cl in s2.calls if cl[0] == "inserted"]
+                        if not ins:
+                            post(exe, s2, z3.Not(is_id.e), f.name, "<%s id>: a finished node gets its marker" % name)
+                            post(exe, s2, z3.BoolVal(isinstance(tm, VAgg) and tm.variant == "Finished"), f.name, "<%s>: finished without children" % name)
+                        else:
+                            post(exe, s2, is_id.e, f.name, "<%s>: a marker only when there is an id" % name)
+                            ok = len(ins) == 1 and is_marker(ins[0][0]) and at_start(ins[0][2]) and isinstance(tm, VAgg) and tm.variant == "Finished" \
+                                and getattr(tm.fields[0], "name", None) == "with_marker"
+                            post(exe, s2, z3.BoolVal(bool(ok)), f.name, "<%s id>: the marker is inserted at the start of the node, once" % name)
+                    else:
+                        if tm is pend:
+                            post(exe, s2, z3.Not(is_id.e), f.name, "<%s id>: an element with children gets its marker" % name)
+                            continue
+                        post(exe, s2, is_id.e, f.name, "<%s>: the constructor is wrapped only when there is an id" % name)
+                        okp = isinstance(tm, VAgg) and (tm.variant == "PendingChildren" or (tm.path or "").endswith("PendingChildren")) and len(tm.fields) == 4
+                        post(exe, s2, z3.BoolVal(bool(okp)), f.name, "<%s id>: still pending its children" % name)
+                        if not okp:
+                            continue
+                        post(exe, s2, z3.BoolVal(tm.fields[0] is kids and getattr(tm.fields[2], "name", None) == "element_prefn" and getattr(tm.fields[3], "name", None) == "element_postfn"),
+                             f.name, "<%s id>: the children and the hooks are the element's own" % name)
+                        wrapper = _unbox(tm.fields[1])
+                        # run the wrapping constructor over the three things the element's own constructor can answer
+                        for inner_kind in ("none", "some", "err"):
+                            def summ2(exe_, st_, f_, bb_, callee, args, dest_ty, inner_kind=inner_kind):
+                                c = callee.strip()
+                                if re.search(r"as FnOnce<.*>>::call_once$", c):
+                                    tgt = args[0]
+                                    if getattr(tgt, "name", None) != "element_cons":
+                                        st_.calls.append(("wrong_cons", [], f_.name, bb_))
+                                    if inner_kind == "none":
+                                        return [(st_, VAgg("Result::Ok", "Ok", [VAgg("Option::None", "None", [])]))]
+                                    if inner_kind == "some":
+                                        return [(st_, VAgg("Result::Ok", "Ok", [VAgg("Option::Some", "Some", [VOpaque("RenderNode", "built")])]))]
+                                    return [(st_, VAgg("Result::Err", "Err", [VOpaque("Error", "inner_error")]))]
+                                return summ(exe_, st_, f_, bb_, callee, args, dest_ty)
+                            summaries.summarize = summ2
+                            n0 = len(s2.calls)
+                            couts = exe.call_closure(s2.clone(), wrapper, [VRef("val", VOpaque("HtmlContext", "context")), VVec([VOpaque("RenderNode", "ch0")])])
+                            summaries.summarize = summ
+                            if not couts:
+                                raise Inconclusive("<%s id>: the wrapping constructor returned on no path" % name)
+                            for (s3, r3) in couts:
+                                new = s3.calls[n0:]
+                                post(exe, s3, z3.BoolVal(not any(cl[0] == "wrong_cons" for cl in new)), f.name, "<%s id>: the wrapper calls the element's own constructor" % name)
+                                ins = [cl[1] for cl in new if cl[0] == "inserted"]
+                                if inner_kind == "err":
+                                    post(exe, s3, z3.BoolVal(isinstance(r3, VAgg) and r3.variant == "Err"), f.name, "<%s id>: an error of the constructor is passed on" % name)
+                                elif inner_kind == "none":
+                                    ok = isinstance(r3, VAgg) and r3.variant == "Ok" and isinstance(r3.fields[0], VAgg) and r3.fields[0].variant == "Some" and is_marker(r3.fields[0].fields[0])
+                                    post(exe, s3, z3.BoolVal(bool(ok)), f.name, "<%s id>: when the element builds nothing the marker remains" % name)
+                                else:
+                                    ok = len(ins) == 1 and is_marker(ins[0][0]) and getattr(ins[0][1], "name", None) == "built" and at_start(ins[0][2]) \
+                                        and isinstance(r3, VAgg) and r3.variant == "Ok" and isinstance(r3.fields[0], VAgg) and r3.fields[0].variant == "Some" \
+                                        and getattr(r3.fields[0].fields[0], "name", None) == "with_marker"
+                                    post(exe, s3, z3.BoolVal(bool(ok)), f.name, "<%s id>: the marker is inserted at the start of what the element builds" % name)
+            except PathEnd as e:
+                raise Inconclusive("<%s>: %s" % (name, e))
+        finally:
+            summaries.summarize = orig
+    return {"function": f.name, "paths": total}
+
+# ----------------------------------------------------------------------------
 # SPEC: every <style> element of a document is a style sheet of its own: dom_to_stylesheet hands each extracted text
 # to add_author_css separately, in document order, and carries on when one of them does not parse (malformed CSS in
 # one element must not change what the others say: C17; a display:none rule in a later element still hides: C18).
@@ -5546,6 +5698,11 @@ ALL = [
          assumptions=["tree_map_reduce delivers the texts of the style elements in document order (extract_style_nodes / combine_vecs are not executed; "
                       "tree_traversal decides the order of the driver)", "StyleData::add_author_css is observed"],
          replay=lambda fd, vals, info: {"harness": "m_style_elements", "values": [[0]]}),
+    Spec("frag_from_id", ["C14"], spec_frag_from_id,
+         functions=["process_dom_node (element arm after the dispatch: id / name lookup, wrapping of Nothing / Finished / PendingChildren; the wrapping constructor closure)"],
+         bounds="elements hr (nothing), br (finished), em and div (pending) with one attribute that is or is not the id; the element's own constructor answers None, Some or an error",
+         assumptions=["insert_child is observed (insert_child decides what it does); equality of the attribute name with \"id\" is an arbitrary boolean; no ::before / ::after content"],
+         replay=lambda fd, vals, info: {"harness": "m_frag_from_id", "values": [[0]]}),
     Spec("sup_children_kept", ["C03"], spec_sup_children_kept,
          functions=["do_render_node (Sup arm) and its helper sup_digits"],
          bounds="1, 2 and 3 opaque children (any node kinds, any text)",
